@@ -166,6 +166,11 @@ def prop_new_frames(r, nd, train, sname):
     f2[sname] = pd.array([None if h else int(v) for h, v in zip(hide, base)], dtype="Int64")
     out.append(("successes missing (pd.NA, Int64)", f2))
     out.append(("no successes column", nd.drop(columns=[sname]) if sname in nd.columns else nd))
+    # a prediction grid with MORE rows than the training frame had (tenth seeded wave, C16_P: the
+    # training-time array of a constant number of trials was reused and cut to the new length)
+    reps = len(train) // max(len(nd), 1) + 2
+    out.append(("more rows than the training frame",
+                pd.concat([nd] * reps, ignore_index=True).iloc[:len(train) + 1 + r.randrange(0, 4)]))
     return out
 
 
@@ -397,12 +402,37 @@ def explore(tier, seed, res=None, replay=None):
         # new frame in the clean scope only (thorough / replay: in both scopes)
         wide = scope is None or tier != "quick" or replay is not None
         # ---- binary ------------------------------------------------------------------------------
-        for var, succ in (("k", None), ("k", 2), ("k", 7), ("h", "'q'"), ("h", "'zz'"), ("f", None),
-                          ("k", 1), ("co", None), ("cu", None), ("kz", 0), ("kz", None), ("co", "'mid'")):
+        # categorical columns that DECLARE a category no row takes (unordered / ordered; the unused
+        # category sorts first, in the middle, last): such a success value never occurs in training
+        # and is refused; the default is the smallest value that occurs (tenth seeded wave, C16_O)
+        rcx = rng_for(seed, "c16", "unused-category", fi)
+        dfx = df.copy()
+        for cname, ordered in (("cx", False), ("cxo", True)):
+            seen = rcx.sample(["pa", "pb", "pc", "pd"], rcx.randrange(1, 4))
+            never = rcx.choice(["aa-never", "pb-never", "zz-never"])
+            cats = seen + [never]
+            rcx.shuffle(cats)
+            vals = [seen[i % len(seen)] for i in range(len(df))]
+            rcx.shuffle(vals)
+            dfx[cname] = pd.Categorical(vals, categories=cats, ordered=ordered)
+            dfx.attrs[cname] = (never, vals[0])
+        cx_cases = []
+        for cname in ("cx", "cxo"):
+            never, present = dfx.attrs[cname]
+            cx_cases += [(cname, repr(never)), (cname, repr(present)), (cname, None)]
+        for var, succ in ((("k", None), ("k", 2), ("k", 7), ("h", "'q'"), ("h", "'zz'"), ("f", None),
+                           ("k", 1), ("co", None), ("cu", None), ("kz", 0), ("kz", None), ("co", "'mid'"))
+                          + tuple(cx_cases)):
             for fn in ("binary", "B"):
                 res.evaluations += 1
                 arg = f"{fn}({var})" if succ is None else f"{fn}({var}, {succ})"
                 case = mk(arg)
+                if var in ("cx", "cxo"):
+                    res.count("binary_unused_category:" + ("omitted" if succ is None else
+                              "unused" if succ == repr(dfx.attrs[var][0]) else "present"))
+                    case = mk(arg, categories=list(dfx[var].cat.categories),
+                              observed=sorted(set(dfx[var].tolist())), ordered=bool(dfx[var].cat.ordered))
+                    df_saved, df = df, dfx
                 try:
                     dm = build(f"y ~ {arg}", df)
                     column, err = [designs.frac(v) for v in col(dm, arg)], None
@@ -411,6 +441,8 @@ def explore(tier, seed, res=None, replay=None):
                 s = None if succ is None else (succ.strip("'") if isinstance(succ, str) else succ)
                 add({"op": "c16_binary", "x": lv(df[var].tolist()), "success": s, "column": column,
                      "err": err or ""}, case)
+                if var in ("cx", "cxo"):
+                    df = df_saved
         # float columns whose values are close together: equality is exact (no tolerance), at both
         # magnitudes; the success value is written as a decimal literal or passed as a variable
         build_b = make_builder(None if scope is None else mode, shadow_objs,
